@@ -198,40 +198,30 @@ func shouldTransformKeyword(source string, pos int, keyword string) bool {
 	beforeOnLine := strings.TrimSpace(source[lineStart:pos])
 
 	switch keyword {
-	case "route", "type", "handle", "cron", "command", "queue", "func":
-		// These should only appear at the start of a line
-		return beforeOnLine == ""
-	case "let", "return", "middleware", "use", "expects", "validate":
-		// These can appear at line start or inside blocks
-		if beforeOnLine == "" {
-			return true
-		}
-		return isInsideBlock(source, pos)
+	case "route", "type", "handle", "cron", "command", "queue", "func",
+		"let", "return", "middleware", "use", "expects", "validate":
+		// Expansion writes a keyword only where a symbol started a line, so
+		// only there is a word the keyword; anywhere else (`{validate: true}`,
+		// `input.use`) it is an identifier of the program.
+		return beforeOnLine == "" && !usedAsName(source[pos+len(keyword):])
 	}
 	return false
 }
 
-// isInsideBlock checks if position is inside a block (between { and })
-func isInsideBlock(source string, pos int) bool {
-	depth := 0
-	for i := 0; i < pos; i++ {
-		if source[i] == '"' || source[i] == '\'' {
-			// Skip strings
-			quote := source[i]
-			i++
-			for i < pos && source[i] != quote {
-				if source[i] == '\\' {
-					i++
-				}
-				i++
-			}
-			continue
-		}
-		if source[i] == '{' {
-			depth++
-		} else if source[i] == '}' {
-			depth--
-		}
+// usedAsName reports whether the text that follows a word makes the word a
+// name rather than a keyword. Expansion follows a keyword by white space or
+// `{`; a field (`type: str!`), a path (`use.count`), an argument or an
+// assignment target (`queue = 2`) is followed by something else.
+func usedAsName(rest string) bool {
+	if rest == "" {
+		return false
 	}
-	return depth > 0
+	if c := rest[0]; c != ' ' && c != '\t' && c != '\r' && c != '\n' && c != '{' {
+		return true
+	}
+	rest = strings.TrimLeft(rest, " \t")
+	if strings.HasPrefix(rest, ":") {
+		return true
+	}
+	return strings.HasPrefix(rest, "=") && !strings.HasPrefix(rest, "==")
 }
